@@ -177,7 +177,7 @@ func genInboxF(r *rng, ty string, k int, focus bool) *scenario {
 	}
 	if focus && k%7 == 3 { // two actors that differ only in the query of their ids; the second one is blocked
 		act["actor"] = []interface{}{sender + "?author=1", jmap{"type": "Person", "id": sender + "?author=2"}}
-		if ty != "Undo" && ty != "Accept" && ty != "Reject" {
+		if k%14 == 3 && ty != "Undo" && ty != "Accept" && ty != "Reject" && ty != "Follow" {
 			cfg.Blocked = []string{sender + "?author=2"}
 		}
 	}
